@@ -55,10 +55,11 @@ class Run:
     pass
 
 
-def execute(ctx, tool, k, sched_seed, plan=None, sticky=False, read_faults=None, mutate=None):
-    """One execution of the drawn tool case in a fresh run directory."""
+def execute(ctx, tool, k, sched_seed, plan=None, sticky=False, read_faults=None, mutate=None, again=None):
+    """One execution of the drawn tool case in a fresh run directory (`again` = an earlier Run: the same
+    request is executed once more where that run left everything - inputs, cwd and its own output)."""
     root = os.path.join(ctx.scratch, f"run{k}")
-    inputs = tool.prepare_root(root)
+    inputs = tool.prepare_root(root) if again is None else list(again.inputs)
     if mutate:
         mutate(tool)
     snaps = [common.snapshot(i) for i in inputs]
@@ -163,6 +164,8 @@ def run_case(ctx):
     arms = [("faults", 6), ("clean", 1), ("unreadable", 2)]
     if name in ("mandoline", "whip", "pestle"):
         arms.append(("unknown", 2))
+    if tool.writer:
+        arms.append(("rerun", 1))
     if not tool.writer:
         arms = [("clean", 1), ("unreadable", 3)] + ([("unknown", 2)] if name == "pestle" else [])
     arm = src.weighted("arm", arms)
@@ -182,6 +185,14 @@ def run_case(ctx):
 
     pilot = execute(ctx, tool, 0, sched_seed)
     check_run(ctx, tool, pilot, sig, "fault-free run")
+    if arm == "rerun":
+        # the same request once more, over the output the first run left behind (a re-submitted job): whatever
+        # the first run shares with its input (links, handles, caches) must not let the second one reach into it
+        r2 = execute(ctx, tool, 0, sched_seed + 1, again=pilot)
+        check_run(ctx, tool, r2, {**sig, "arm": "rerun"}, "second run of the same request")
+        ctx.nontrivial = True
+        ctx.probe("rerun_over_own_output")
+        arm = "clean"
     shutil.rmtree(pilot.root, ignore_errors=True)
     if form_special:
         ctx.nontrivial = True
@@ -222,15 +233,23 @@ def run_case(ctx):
         cls = src.choice("unreadable.class", ["Header", "level-header", "binary"])
         pool_ = {"Header": heads, "level-header": lvh, "binary": bins}[cls] or heads
         rel = pool_[src.draw("unreadable.which", 0, len(pool_) - 1)]
-        kind = src.choice("unreadable.kind", ["EIO", "EACCES"])
+        kind = src.choice("unreadable.kind", ["EIO", "EACCES", "EIO-MID", "EIO-MID"])
+        spec = kind
+        if kind == "EIO-MID":
+            # the file opens, but becomes unreadable part-way: reads before that point are served (short),
+            # the read that needs the bad byte gets EIO (np.fromfile: a short array, as fread gives it)
+            where = src.choice("unreadable.where", ["middle", "last-byte", "after-first-line", "first-byte"])
+            spec = (kind, where)
+            kind = f"{kind}@{where}"
         root1 = os.path.join(ctx.scratch, "run1")
-        r = execute(ctx, tool, 1, sched_seed, read_faults={os.path.join(root1, rel): kind})
+        r = execute(ctx, tool, 1, sched_seed, read_faults={os.path.join(root1, rel): spec})
         check_run(ctx, tool, r, sig, f"unreadable {rel}")
         if r.fired:
             ctx.nontrivial = True
             if not r.outcome.failed_visibly() and r.digest != pilot.digest:
-                raise Violation({**sig, "oracle": "failure-not-reported", "arm": "unreadable-input", "file": cls},
-                                f"{name}: opening {rel} failed with {kind} but the tool returned normally "
+                raise Violation({**sig, "oracle": "failure-not-reported", "arm": "unreadable-input", "file": cls,
+                                 "fault": kind.split("@")[0]},
+                                f"{name}: reading {rel} failed with {kind} but the tool returned normally "
                                 f"(exit={r.outcome.exit_code!r}) with a different/missing output; form={tool.describe()}")
             if not r.outcome.failed_visibly():
                 ctx.probe("recovered_from_read_fault")
